@@ -45,6 +45,20 @@ CHECKS = {
          "method names by a complete table. Timestamps and retention lists are partial: an executable calendar/list model compared with the code.",
          "Lean 4 theorems (strong induction on digit strings, omega) + exhaustive/boundary differential check of printers and parsers", "§5 C19"),
 }
+
+MORE = {
+ "C08": ("Frame and bookkeeping of copy are Lean theorems about the command model (only the destination changes, missing destination created, mismatch / no difference write nothing, written points are source points, glob order). The headline clause - destination equals source after success - is partial: asserted on the real code on every run by a post-check (diff clean right after copy; repeating writes nothing) on top of the model/implementation correspondence.", "Lean 4 theorems about the command model + correspondence check with property-level post-conditions on the real code", "§5 C08"),
+ "C09": ("Exactness, cleanliness, symmetry and the missing-file / mismatch / glob verdicts are Lean theorems about the diff model for all series; tied to the code by differential runs of the real command with parsed output.", "Lean 4 theorems (list induction over DiffPoints) + correspondence check", "§5 C09"),
+ "C10": ("Slot-wise NaN-skipping fold, identity on one file, irrelevance of holes and NaN-iff-all-NaN are Lean theorems for every float instance; tied to the code by differential runs of sum over generated item trees.", "Lean 4 theorems (fold lemmas over FOps) + correspondence check", "§5 C10"),
+ "C11": ("sum-copy and sum-diff are proved to be the copy and diff cores applied to the sum, so C08-C10 transfer; the headline clause shares C08's partial and is asserted by a post-check (sum-diff clean right after sum-copy).", "Lean 4 corollaries + correspondence check with post-conditions", "§5 C11"),
+ "C12": ("The client decodes exactly what the server's local call produced: Lean theorems from the codec round trips (C14); the transport is outside the model and is exercised by real HTTP round trips comparing local and remote observations for every read and glob.", "Lean 4 theorems (response codec round trip) + local/remote differential runs through a real server", "§5 C12"),
+ "C13": ("Partial: a protocol model of the lock proved for every event sequence (no lost update, readers see a session boundary, blocked opens change nothing); the kernel's flock and GC timing are exercised by stress legs and lock probes after failed opens.", "Lean 4 invariant by induction over event sequences + concurrency stress (goroutines and processes) and lock probes", "§5 C13"),
+ "C16": ("Decision-logic theorems about the command models (unopenable text-out, missing source, bad selection, mismatch are never success); no-panic over the whole product is partial and asserted on the real code on every run (panic, leaked lock, silent success are violations even when the model agrees).", "Lean 4 theorems about command models + fault-product correspondence runs with property-level assertions", "§5 C16"),
+ "C17": ("Partial: interleaving theorem over atomic page reads (every schedule returns sequential results); data-race freedom is delegated to the Go race detector on the concurrency legs plus a regenerated structural fact.", "Lean 4 interleaving invariant + race-detector runs (shared handle, sum, parallel HTTP)", "§5 C17"),
+ "C18": ("Completeness, soundness and order of view's records, the view-raw range filter and the stable sort are Lean theorems about the text model (formats from the source); view-subset-raw is asserted on the real code; number/time formatting is exercised by parsing the real output back.", "Lean 4 theorems about the record model + correspondence check on parsed output", "§5 C18"),
+ "C20": ("Refusal of existing files, header/length as requested for all random points, and emptiness without fill are Lean theorems; the value clauses are decided on every run by an executable Lean specification evaluated on the file the real command wrote.", "Lean 4 theorems (random points as a parameter) + executable specification on the generated file", "§5 C20"),
+}
+CHECKS.update(MORE)
 PENDING = {}
 def main():
     props = [json.loads(l) for l in open(os.path.join(V, "properties.jsonl"))]
